@@ -152,16 +152,26 @@ func vC04CaseCas(out *vC04Out, r *rand.Rand) {
 		if env.peek(key) == nil {
 			return
 		}
+		// the filler admissions may push the OTHER tracked key out of its segment as well
+		// (which victim a full segment drops is the store's choice): every tracked key that
+		// was there before and is gone afterwards is recorded as removed — the history
+		// states what happened to the store, not what the step aimed at
+		var had [2]bool
+		for j, n := range names {
+			had[j] = env.peek(vC04Key(n, false)) != nil
+		}
 		for i := 0; i < 6000 && env.peek(key) != nil; i++ {
 			fname := fmt.Sprintf("f%d-%d.fill.c04.test.", r.Intn(1<<30), i)
 			env.c.store.SetFromResponseWithKey(vC04Key(fname, false), cutTestMsg(fname, dns.RcodeSuccess, 300), time.Time{}, 0)
 		}
-		if env.peek(key) != nil {
-			return // not evicted this time: nothing happened to the key
+		for j, n := range names {
+			if !had[j] || env.peek(vC04Key(n, false)) != nil {
+				continue // not evicted this time: nothing happened to the key
+			}
+			latest[n] = nil
+			ops = append(ops, fmt.Sprintf("XRemove %d 0", j+1))
+			desc = append(desc, fmt.Sprintf("evict %s by capacity", n))
 		}
-		latest[name] = nil
-		ops = append(ops, fmt.Sprintf("XRemove %d 0", ki+1))
-		desc = append(desc, fmt.Sprintf("evict %s by capacity", name))
 	}
 	pick := func(ki int) *CacheEntry {
 		l := known[names[ki]]
